@@ -876,3 +876,24 @@ def r16(text, ctx):
             body = body[:t.start] + calls[0] + body[toks[be + 2].end:]
             return sig + '\x00' + body, 1
     return text, 0
+
+
+@rule('R15', 'the bound `RustEmbed +` is removed from where clauses (the rust-embed crate cannot be linked in single-file mode); functions that call `T::get` / `T::iter` are not extractable and stay outside the verified text')
+def r15(text, ctx):
+    out, n = re.subn(r'\bRustEmbed\s*\+\s*', '', text)
+    return out, n
+
+
+@rule('R2b', '`fn f(mut x: T, ..) { B }` -> `fn f(x: T, ..) { let mut x = x; B }` (desugaring of a mutable parameter binding)')
+def r2b(text, ctx):
+    if '\x00' not in text:
+        return text, 0
+    sig, body = text.split('\x00')
+    names = re.findall(r'[(,]\s*mut\s+([a-z_][A-Za-z0-9_]*)\s*:', sig)
+    names = [n for n in names if n != 'self']
+    if not names:
+        return text, 0
+    for nm in names:
+        sig = re.sub(r'([(,]\s*)mut\s+%s\s*:' % re.escape(nm), r'\1%s:' % nm, sig)
+    body = '{ ' + ' '.join('let mut %s = %s;' % (nm, nm) for nm in names) + body[1:]
+    return sig + '\x00' + body, len(names)
